@@ -26,7 +26,7 @@ CHECKS = {
          "the next regressor is fitted to and updates the incumbent, every array passed by the caller stays byte- and shape-identical - for "
          "generated sequences of propose / add (proposal, seeded point, near-duplicate, outlier) calls over d in {1,2,3}, 3-40 evaluations held, "
          "EI/UCB/max-variance/default acquisition, bfgs/differential evolution, 1-3 processes, with/without y_err, several input array forms, a second "
-         "optimiser interleaved, kappa changed on the live acquisition, read-only likelihood queries on the live regressor, hyper-parameters set on the live regressor or given by the caller as array / list / tuple; the hyper-parameter "
+         "optimiser interleaved, kappa changed on the live acquisition, read-only likelihood queries on the live regressor, hyper-parameters set on the live regressor or given by the caller as array / list / tuple, evaluations lying exactly on the bounds; every regressor consulted while a proposal is produced (also the copies unpickled in simulated pool workers) must hold the current data; the hyper-parameter "
          "limits of each refit must be those estimated from the current data. The formula clauses (EI both branches, UCB, max "
          "variance, value-and-gradient form) are pure functions of the regressor state; they are attached only as spot oracles at the states "
          "the histories reach (EI vs quadrature in log space, gradients vs two-step central differences). No coverage 'for all predictive "
@@ -85,7 +85,7 @@ CHECKS = {
          "per evaluation; ParallelTempering.advance / run_for inside the process simulation (cycle arithmetic, progress watch); "
          "histories include save/load, runs of thousands of steps, advances interrupted by a raising posterior (own exception type and "
          "StopIteration: an advance that returns normally added exactly m), positional run_for calls, budgets of days, pools built from "
-         "shared input objects and larger than the simulated core count; coarse clocks (readings that stay equal for 1 ms / 15.6 ms / 1 s) in "
+         "shared input objects and larger than the simulated core count, the mass of pooled HMC chains re-estimated between two pooled advances; coarse clocks (readings that stay equal for 1 ms / 15.6 ms / 1 s) in "
          "timed runs and plain advances, forward clock jumps also under ParallelTempering.run_for. An evaluation budget per operation turns a non-terminating step "
          "into a reported violation."),
    design_ref="DESIGN.md 3.7",
@@ -100,7 +100,7 @@ CHECKS = {
          "exchanges (also under the real ParallelTempering), save/load, the caller overwriting its start array, advances interrupted by a "
          "raising posterior (error, StopIteration or KeyboardInterrupt), limits set / changed / cleared on a live chain (also away from its "
          "current value), argument representations (positional, float32, list, read-only, non-contiguous, Fortran-ordered starts, numpy integer "
-         "counts), pairs handed out by get_interval, integer-typed and zero-probability starts, 5-9 parameters, runs of thousands of steps. Exploration by seeded "
+         "counts), pairs handed out by get_interval, an exchange handing a bounded chain a point outside its box, integer-typed and zero-probability starts, 5-25 parameters, runs of thousands of steps. Exploration by seeded "
          "search with shrinking and replay; evidence, not proof."),
    design_ref="DESIGN.md 3.2",
    note="Trusted: harness targets are pure functions; interleaving is at posterior-call granularity (the samplers are synchronous objects, there is no finer pre-emption point that touches shared state)."),
@@ -124,7 +124,7 @@ CHECKS = {
          "re-tempering / untouched checks from return_chains() snapshots, provenance of every row added by advance(), "
          "digest equality of the returned chains across schedules, equal advancement, no deadlock, bounded shutdown; 1-10 chains, "
          "unsorted ladders, chains starting at log-density -inf, steep targets (exchange exponents in the thousands), start points sharing "
-         "one coordinate, single commands of 501-1501 steps, the caller mutating the chain list it passed, fewer simulated cores than chains, "
+         "one coordinate, repeated temperatures, single commands of 501-1501 steps, the caller mutating the chain list it passed, fewer simulated cores than chains, "
          "coarse clocks and forward wall-clock jumps during timed runs, conservation stat jobs. "
          "Sampling, not enumeration: a clean batch is evidence, not proof."),
    design_ref="DESIGN.md 3.4",
